@@ -66,7 +66,7 @@ META = {
                "dr_pi_dag_set_edge_ptrs gives every node exactly the edges whose source it is (loop contracts on its three loops; harness arrays of 4 nodes / 16 edges); "
                "(c) on one concrete 14-node DAG in four record-time contraction states: every edge dr_pi_dag_enum_edges emits has both endpoints inside the DAG, "
                "edges are grouped by source with exact per-node ranges, and all child / subgraph offsets produced by the recorder-side flattening dr_make_pi_dag and "
-               "by the conversion dr_copy_pi_dag (three conversion-time settings) refer to nodes inside the DAG; shrinking preserves the root's totals; "
+               "by the conversion dr_copy_pi_dag (three conversion-time settings) refer to nodes inside the DAG; shrinking preserves the root's totals, and every node of the copy / of the flattened DAG has start and end file indices inside the NEW string table that name the same strings as in the source; "
                "(d) dr_pi_dag_chronological_traverse makes every leaf ready, started and ended exactly once, in chronological order, and ends with nothing ready or running.",
  "level_note": "Byte preservation by the file system and mmap is an ASSUMPTION (the ghost file keeps exactly the bytes the reader inspects). 'Dumping and reading back "
                "yields an identical DAG' therefore means: identical counts and identical placement of T, E, S, I, C over the same bytes. libc qsort is trusted. "
@@ -84,14 +84,14 @@ META = {
    "ASSUMPTION (file system / mmap): the bytes handed to fwrite appear at the same offsets in the mapping. Implemented for the bytes the reader inspects: the first 77 bytes (version line, n, m, start_clock, num_workers) and the 32-byte string table header at the offset of the last write; every other byte of the mapping does not exist as memory in the model (a reader touching it fails a pointer obligation)",
    "MODEL (mapping): mmap returns the address `&WIN - offset_of_last_write`, a pointer whose offset lies outside its object until the reader adds the offset of S; CBMC compares (object, offset) pairs exactly and checks dereferences only; pointer arithmetic that leaves an object is not flagged (no --pointer-overflow-check) -- T at file offset 77 is also misaligned for its type, which CBMC does not check and x86-64 tolerates",
    "BOUND (file job, complete up to it): file size <= 2^48 bytes (n <= 2^48/432, m <= 2^48/24, string table <= 2^48 bytes): keeps the 64-bit size arithmetic and CBMC's 52-bit pointer offsets from wrapping. No other bound on n, m, S->n, S->sz",
-   "STUB fwrite (body): checks the stream, at most 8 calls, records offset / source / byte count, may return a short count (then the writer must report failure); that each source holds size*count readable bytes is NOT checked there: T, E hold n, m elements by allocation (enum_nodes / enum_edges), S holds S->sz bytes by the flatten job (S->sz == allocated size)",
+   "STUB fwrite (body): checks the stream, at most 8 calls, records offset / source / byte count, may return a short count (then the writer must report failure); returns 0 for a write of zero bytes (size or count zero, C11 7.21.8.2) -- the writer must still report success and go on to the next item (DAG of the root only: m == 0); that each source holds size*count readable bytes is NOT checked there: T, E hold n, m elements by allocation (enum_nodes / enum_edges), S holds S->sz bytes by the flatten job (S->sz == allocated size)",
    "STUBS open (defined directly, libc's is variadic), read, lseek, mmap, close (bodies): open/read/mmap may fail or read short (then the reader must return 0); read serves only the 77 header bytes; lseek answers position queries; mmap demands the whole file from offset 0, MAP_PRIVATE and PROT_READ|PROT_WRITE (the reader patches S->I, S->C in the mapping); close must be called once on every path",
    "STUB malloc (file job): the reader's one request returns a static dr_pi_dag; memory exhaustion is outside the property. exit() is a stub whose reachability (a failing dr_check) is an obligation; fprintf / strerror body-less; verbose_level = dbg_level = 0; chk_level nondeterministic",
    "--conversion-check is switched off in the file job only: dr_read_dag compares the ssize_t result of read (possibly -1) with a size_t; the conversion to SIZE_MAX is defined and intended. Suggested entry for contracts/benign_obligations.txt: `C19<TAB>dr_read_dag: arithmetic overflow on signed to unsigned type conversion in \\(unsigned long int\\)r<TAB>read() == -1 compared with sizeof: defined conversion, takes the error path`",
    "BOUND (kind=bounded) string table builder: at most 8 strings (cells of the linked list in a static array), each of any length below 4096 (PATH_MAX); strlen / strcpy are stubs (strlen returns the ghost length of the string, strcpy records the destination), malloc returns one static object and records the requested size. The intern / find / append side (duplicate detection by strcmp) runs only in the concrete DAG jobs",
    "BOUND (kind=bounded) dr_pi_dag_set_edge_ptrs: proved with loop contracts (base + step of three invariants for arbitrary loop states), but the preconditions 'every source in [0, n)' and 'sorted by source as seen from the witness edge' are spelled out over harness arrays of 4 nodes and 16 edges, so n <= 4, m <= 16 (larger node arrays exhaust the SAT back end: 432-byte nodes with unions under --dfcc). Precondition n >= 1; with n == 0 the function would write T[-1] (a DAG always has its root). Termination of the loops is not proved (no decreases clause)",
    "TRUSTED libc qsort: in the concrete jobs a stub (insertion sort calling the given comparator); that qsort sorts for any total preorder is the C standard's contract, and edge_cmp being one is the lemma job",
-   "BOUND (kind=bounded) clauses (c), (d), 'shrinking preserves totals': ONE concrete DAG of 14 nodes, as position-independent array in the layout of dr_pi_dag_enum_nodes (replay, conversion) and as the pointer-based DAG the recorder leaves (dr_make_pi_dag; absolute clocks 100..111, contracted sections = emptied child lists) (root task -> section A{create->c1, other, create->c2, wait}, other, section B{create->c3, wait}, end) with a concrete serial schedule of the leaves (clock 0..11), four record-time contraction states of A / B, resume kinds after the waits fixed per state (both kinds occur), two file names; work / critical path / counters / counts nondeterministic. chk_level = 1 in these jobs. Three conversion-time settings for dr_copy_pi_dag: keep everything; contract one-worker sections (collapse_max); contract everything shorter than 7 clocks (uncollapse_min); collapse_max_count = 0 (the count-based policy is not exercised)",
+   "BOUND (kind=bounded) clauses (c), (d), 'shrinking preserves totals': ONE concrete DAG of 14 nodes, as position-independent array in the layout of dr_pi_dag_enum_nodes (replay, conversion) and as the pointer-based DAG the recorder leaves (dr_make_pi_dag; absolute clocks 100..111, contracted sections = emptied child lists) (root task -> section A{create->c1, other, create->c2, wait}, other, section B{create->c3, wait}, end) with a concrete serial schedule of the leaves (clock 0..11), four record-time contraction states of A / B, resume kinds after the waits fixed per state (both kinds occur); file names: three in the conversion jobs, 'a.c' (first in the original's table) occurring only in the three nodes below section B, which conversion settings 1 and 2 prune, so that every other name changes its index in the copy's table; two in the flattening job; most nodes start and end in the same file, some not; work / critical path / counters / counts nondeterministic. chk_level = 1 in these jobs. Three conversion-time settings for dr_copy_pi_dag: keep everything; contract one-worker sections (collapse_max); contract everything shorter than 7 clocks (uncollapse_min); collapse_max_count = 0 (the count-based policy is not exercised)",
    "STUBS (concrete DAG jobs): malloc serves each request from a typed static pool (planned order in the conversion / replay jobs, by size in the flattening job; stack cells and child arrays of at most 32 bytes are fresh dynamic objects there); free is a no-op (double free / leaks not decided); memset is a typed clear of one edge / of the node array",
    "In the replay job the observer is the only function whose address matches chronological_traverser.process_event; events are compared by node index, kind and time; ties in time are broken by the real heap",
    "NOT DECIDED (clause of the property): 'identical DAG' beyond counts and placement, i.e. the contents of T, E and of the string characters after a round trip (byte preservation is assumed, not proved); the #if 0 size cross-check in dr_read_dag; behaviour on a truncated or foreign file whose header happens to match (the reader trusts n, m and S->n)",
